@@ -257,6 +257,7 @@ def engine_case(order, ti, ni, path):
   return True
 
 
+LEVEL = "exploration"
 OBLIGATIONS = []
 ENUM = [
   {"func": "rename_case", "domains": {"ci": list(range(len(SCEN_KEYS))), "si": list(range(len(SHAPES))), "a": list(range(len(ATOMS))),
